@@ -434,6 +434,11 @@ func (s *Sim) grantable(t *Task) bool {
 		return s.now >= t.wakeAt
 	case opRead:
 		return s.Net.readReady(t)
+	case opWrite:
+		// a peer that has stopped reading: once the send window is full a Write blocks until the connection is
+		// closed (the library sets no write deadline)
+		c := r.conn
+		return !c.PeerStalled || c.clientClosed || c.stalledBytes+len(r.buf) <= c.SendWindow
 	case opOnce:
 		os := s.onceOf(r.obj)
 		return os.done || os.running == nil || os.running == t
